@@ -55,7 +55,29 @@ def run(P, C, tier):
                     full = b.switch_term(sb, expand_vars=True)
                     if not any(x[0] == "call" and x[1].endswith("oneshot::channel") for x in mir.subterms(full)):
                         ack = None
-        ok = ack is not None and bool(cs) and b.must_pass(ack, cs, b.exits(), after=False)
+        # a failed write committed nothing: edges taken only when the reply is an Err may skip the request
+        skip = set()
+        for sb in sorted(b.live_blocks()):
+            t = b.blocks[sb]["t"]
+            if t["k"] != "switch":
+                continue
+            term = b.switch_term(sb, expand_vars=False)
+            dv = None
+            if term[0] == "discr" and field_path(term[1]) == "result":
+                table = dict(term[3])
+                for v, tg in t["targets"]:
+                    if table.get(v) == "Err":
+                        skip.add((sb, tg))
+            atom, _ = mir.cond_atoms(term, [0])
+            if atom[0] == "call" and atom[2] and field_path(atom[2][0]) == "result":
+                for tg, vals in __import__("rules.rights", fromlist=["x"]).switch_edges(b, sb):
+                    tr = mir.cond_atoms(term, vals)[1]
+                    if (atom[1].endswith("::is_ok") and tr is False) or (atom[1].endswith("::is_err") and tr is True):
+                        skip.add((sb, tg))
+        ok = False
+        if ack is not None and cs:
+            r = b.reachable(ack, avoid_blocks=cs, avoid_edges=skip)
+            ok = not (r & set(b.exits()))
         C.ob("R1", mir.short(P.owner_fn(b.id)), ok, b.loc(cs[0]) if cs else b.loc(), "every path from the received acknowledgement to the exit requests recomputation (%d request site)" % len(cs))
     # ---- R1 b: mutation_stream
     try:
